@@ -840,6 +840,41 @@ pub fn layouts(args: &[String], checks: &mut Vec<Check>) {
     ck(checks, format!("C13:data-reversed-first-axis{tag}"), run_with!(reversed_strides(&data, &[0]), x.clone()).map(|r| r == base).unwrap_or(false), String::new());
     ck(checks, format!("C13:axis-reversed-strides{tag}"), run_with!(data.clone(), reversed_strides(&x, &[0])).map(|r| r == base).unwrap_or(false), String::new());
     ck(checks, format!("C13:data-shared-storage{tag}"), run_with!(data.clone().into_shared(), x.clone().into_shared()).map(|r| r == base).unwrap_or(false), String::new());
+    // data rows AND the caller's buffer share the same unusual (contiguous, non-standard) layout: a fast path keyed on "same strides"
+    // must still pair every lane with its own coefficients (interp_into and the rank-1 interp_array_into)
+    {
+        let nq = qarr.len();
+        let lane_axes2 = lane_axes.clone();
+        let variants: Vec<(&str, Box<dyn Fn(&ArrayD<Sym>) -> ArrayD<Sym>>)> = vec![
+            ("permuted-memory", Box::new(|a: &ArrayD<Sym>| permuted_memory(a))),
+            ("reversed-lane-axes", Box::new(move |a: &ArrayD<Sym>| reversed_strides(a, &lane_axes2))),
+        ];
+        for (lname, f_) in variants.iter() {
+            let r = catch_unwind(AssertUnwindSafe(|| -> bool {
+                let d = f_(&data);
+                let rowshape: Vec<usize> = [&[1usize][..], &ds[1..]].concat();
+                let mut one = f_(&ArrayD::from_elem(IxDyn(&rowshape), konst_frac(0, 1)));
+                let bigshape: Vec<usize> = [&[nq][..], &ds[1..]].concat();
+                let mut many = f_(&ArrayD::from_elem(IxDyn(&bigshape), konst_frac(0, 1)));
+                let mut ok = true;
+                macro_rules! go { ($it:expr) => {{
+                    let it = $it;
+                    for q in qv.iter() {
+                        let want: Vec<u32> = it.interp(*q).unwrap().iter().map(|s| s.0).collect();
+                        it.interp_into(*q, one.index_axis_mut(Axis(0), 0)).unwrap();
+                        ok &= one.index_axis(Axis(0), 0).iter().map(|s| s.0).collect::<Vec<_>>() == want;
+                    }
+                    let want: Vec<u32> = it.interp_array(&qarr).unwrap().iter().map(|s| s.0).collect();
+                    it.interp_array_into(&qarr, many.view_mut()).unwrap();
+                    ok &= many.iter().map(|s| s.0).collect::<Vec<_>>() == want;
+                }}; }
+                if strat == "linear" { go!(Interp1DBuilder::new(d).x(x.clone()).strategy(Linear::new().extrapolate(true)).build().unwrap()); }
+                else { go!(Interp1DBuilder::new(d).x(x.clone()).strategy(CubicSpline::new().extrapolate(true)).build().unwrap()); }
+                ok
+            }));
+            ck(checks, format!("C13:data-and-buffer-{lname}{tag}"), r.unwrap_or(false), String::new());
+        }
+    }
     {
         let big = strided_big(&data);
         let xbig = { let mut b = Array1::from_elem(2 * n + 1, var("POISON", 777.0)); b.slice_mut(ndarray::s![1..;2]).assign(&x); b };
